@@ -30,7 +30,13 @@ def _call(args):
     import importlib
 
     mod = importlib.import_module(modname)
-    return getattr(mod, fname)(item)
+    try:
+        return getattr(mod, fname)(item)
+    finally:
+        if os.environ.get("VERIF_COV"):  # development aid (tools/README): workers are terminated without exit handlers
+            import env
+
+            env.cov_save()
 
 
 def pmap(modname, fname, items, workers=16, chunksize=1):
